@@ -4,6 +4,10 @@ impl  : _curve_helpers.locate_point, Curve.locate, _triangle_intersection.locate
 model : driver `locate_curve_py|f90` (exact bisection + Newton step), `contains_nd`
 spec  : the round trip itself (locate(evaluate(s)) = s), domain membership, None off the shape,
         documented error for a wrong point shape
+
+Families FAR (shapes whose coordinates are large compared with their extent, exact on-shape points) and BOX-OFF (points
+strictly outside the control-point box at graded distances down to one ulp) are described in props/c10_far.py:
+kinds curve-far, curve-far-off, curve-boxoff, tri-far, tri-boxoff.
 """
 import sys
 import math
@@ -12,6 +16,7 @@ from fractions import Fraction as Fr
 import common as C
 import exact as X
 import gen as G
+import c10_far as FAR
 
 
 def monotone_net(rnd, n, dim, dyadic_bits=None):
@@ -115,19 +120,143 @@ def main():
         for shape in ("row", "flat", "extra-row", "two-columns"):
             add("curve-wrong-shape", nodes=monotone_net(rnd, 3, 2), shape=shape)
 
+        # ---- FAR and BOX-OFF families (props/c10_far.py); the exponents of the translation cycle through FAR.FAR_K
+        far_reps = 1 if not thorough else 6
+        far_i = rnd.randrange(len(FAR.FAR_K))
+        dyl = [Fr(1, 2), Fr(1, 4), Fr(3, 4), Fr(1, 8), Fr(5, 16), Fr(3, 8), Fr(11, 16), Fr(1, 64), Fr(21, 64)]
+
+        def face_bases(net, pts):
+            """points of the shape (rounded) moved onto a face of the box in one coordinate"""
+            lo, hi = FAR.box(net)
+            out = []
+            for p in pts:
+                p = [min(max(Fr(float(v)), lo[r]), hi[r]) for r, v in enumerate(p)]
+                r = rnd.randrange(len(net))
+                p[r] = rnd.choice((lo[r], hi[r]))
+                out.append(p)
+            return out
+
+        for n in range(1, 9):
+            for dim in (2, 3):
+                for _ in range(far_reps):
+                    for fam in ("dyadic", "float"):
+                        base = monotone_net(rnd, n, dim, dyadic_bits=2 if fam == "dyadic" else None)
+                        k = FAR.FAR_K[far_i % len(FAR.FAR_K)]
+                        far_i += 1
+                        rows, kk = FAR.far_curve_net(rnd, base, k, fam == "dyadic")
+                        if rows is None:
+                            res.skip("far: no certified translate")
+                            continue
+                        # exact on-curve points: end points always; dyadic break points down to the level of the bit budget
+                        m = FAR.exact_levels(rows, n)
+                        params = [Fr(0), Fr(1)] + [s for s in dyl + [G.dyadic_param(rnd, 10), G.dyadic_param(rnd, 5)] if 0 < s < 1 and FAR.level(s) <= m]
+                        for s in params:
+                            add("curve-far", nodes=rows, s=s, family="far-" + fam, k=kk)
+                        # off the curve along the normal, at multiples of the final search resolution
+                        lip = n * max(abs(r[j + 1] - r[j]) for r in rows for j in range(n))
+                        for mult in (6, 24, 2 ** 10):
+                            add("curve-far-off", nodes=rows, s=G.float_param(rnd, 0.2, 0.8), k=kk,
+                                dist=mult * float(lip) * 2.0 ** -(rounds - 1) * math.sqrt(dim))
+                        # strictly outside the box at graded distances: the translated net and the net it comes from
+                        for net, tag in ((rows, "far-" + fam), (base, fam)):
+                            bases = [[r[0] for r in net], [r[-1] for r in net]]
+                            bases += face_bases(net, [X.eval_curve(net, G.float_param(rnd, 0.05, 0.95)) for _ in range(2)])
+                            for p, grade in FAR.box_off_points(net, bases):
+                                add("curve-boxoff", nodes=net, point=p, family=tag, grade=grade)
+        for d in (1, 2, 3, 4):
+            for _ in range(far_reps):
+                base_dy = valid_triangle(rnd, d, True)
+                base_fl = valid_triangle(rnd, d, False)
+                k = FAR.FAR_K[far_i % len(FAR.FAR_K)]
+                far_i += 1
+                far_dy = None
+                for kk in range(k, -1, -1):
+                    offs = FAR.offsets(rnd, 2, kk, True)
+                    cand = FAR.translate(base_dy, offs)
+                    if all(cand[r][i] == base_dy[r][i] + offs[r] for r in range(2) for i in range(len(cand[0]))) and \
+                            (FAR.tri_noise(cand, d, Fr(1, 4), Fr(1, 4), X) or 1e300) <= 2.0 ** (FAR.RATIO_CAP_BITS - 0.5):
+                        far_dy = cand
+                        break
+                if far_dy is None:
+                    res.skip("far: no exact translate of the triangle")
+                    continue
+                far_fl = FAR.translate(base_fl, FAR.offsets(rnd, 2, kk, False))
+                m = FAR.exact_levels(far_dy, d)
+                pts = [(Fr(0), Fr(0)), (Fr(1), Fr(0)), (Fr(0), Fr(1))]
+                pts += [(a, b) for a, b in [(Fr(1, 2), Fr(0)), (Fr(0), Fr(1, 2)), (Fr(1, 2), Fr(1, 2)), (Fr(1, 4), Fr(1, 4)), (Fr(1, 4), Fr(1, 2)),
+                                            (Fr(1, 8), Fr(5, 8)), (Fr(5, 16), Fr(3, 16)), (Fr(3, 8), Fr(0)), (Fr(1, 16), Fr(1, 32))]
+                        if max(FAR.level(a), FAR.level(b)) <= m]
+                for s, t in pts:
+                    add("tri-far", nodes=far_dy, d=d, s=s, t=t, family="far-dyadic", k=kk)
+                flat = [(FAR.flat_edge_triangle(nn, d, e), tag + "-flat-" + e) for nn, tag in ((base_dy, "dyadic"), (far_dy, "far-dyadic"), (far_fl, "far-float"))
+                        for e in ("bottom", "left")]
+                for net, tag in [(base_dy, "dyadic"), (base_fl, "float"), (far_dy, "far-dyadic"), (far_fl, "far-float")] + flat:
+                    bases = [[net[0][c], net[1][c]] for c in FAR.tri_corners(d)]
+                    surf = []
+                    for _ in range(2):
+                        a = G.float_param(rnd, 0.05, 0.95)
+                        e = tag.rsplit("-", 1)[-1]
+                        l1, l2, l3 = (1 - a, a, Fr(0)) if e == "bottom" else ((1 - a, Fr(0), a) if e == "left" else (Fr(1, 2) * (1 - a), Fr(1, 2) * (1 - a), a))
+                        surf.append([X.tri_eval(net[r], d, l1, l2, l3) for r in range(2)])
+                    if "flat" in tag:
+                        # the evaluated edge point lies on the face exactly (all nodes of the edge share the coordinate)
+                        lo, hi = FAR.box(net)
+                        bases += [[min(max(Fr(float(v)), lo[r]), hi[r]) for r, v in enumerate(p)] for p in surf]
+                    else:
+                        bases += face_bases(net, surf)
+                    for p, grade in FAR.box_off_points(net, bases):
+                        add("tri-boxoff", nodes=net, d=d, point=p, family=tag, grade=grade)
+
+    # the FAR / BOX-OFF cases are looked at first: common.Result keeps the first 200 failure records, and the known 1-ulp box
+    # misses of the older families (finding F-F, ~50 per quick run, > 200 per thorough run) must not crowd out a new class
+    cases.sort(key=lambda c: 0 if c[0] in ("curve-far", "curve-far-off", "curve-boxoff", "tri-far", "tri-boxoff") else 1)
+
+    def point_of(kw):
+        return [Fr(float(v)) for v in kw["point"]]
+
+    # common.Result keeps the first 200 failure records of a run: the BOX-OFF family has thousands of cases, so at most 20 witnesses
+    # per failure class are recorded (every further one is still counted in the distribution) and every class keeps its witnesses
+    per_key = {}
+
+    def fail_capped(key, what, rc):
+        per_key[key] = per_key.get(key, 0) + 1
+        if per_key[key] <= 20:
+            res.failure(key, what, rc)
+        else:
+            fk = res.dist.setdefault("failure_keys", {})
+            fk[key] = fk.get(key, 0) + 1
+
+    box_cache = {}
+
+    def box_of(nodes):
+        if id(nodes) not in box_cache:
+            box_cache[id(nodes)] = (nodes, FAR.box(nodes))
+        return box_cache[id(nodes)][1]
+
+    def out_by_of(nodes, point):
+        """exact distance by which the point is outside the closed box of the control points (<= 0: not outside)"""
+        lo, hi = box_of(nodes)
+        return max(max(lo[r] - point[r], point[r] - hi[r]) for r in range(len(nodes)))
+
     # ---- model queries (curve part)
     drv = C.Driver()
     midx = []
     prepared = []
+    n_boxoff = 0
     for kind, kw in cases:
-        if kind == "curve-roundtrip":
+        if kind in ("curve-roundtrip", "curve-far"):
             nodes = kw["nodes"]
             arr = C.farr(nodes)
             pt = CH.evaluate_multi(arr, np.array([float(kw["s"])]))
             point = [Fr(float(v)) for v in pt[:, 0]]
             prepared.append(point)
             midx.append(drv.ask("locate_curve_" + variant, thr, rounds, cap * cap, nodes, point))
-        elif kind == "curve-off":
+        elif kind == "curve-boxoff":
+            prepared.append(kw["point"])
+            # the model's answer (None by the theorem off-box => None) is asked for a sample only: driver time
+            n_boxoff += 1
+            midx.append(drv.ask("locate_curve_" + variant, thr, rounds, cap * cap, kw["nodes"], kw["point"]) if (n_boxoff % 16 == 0 or rep) else None)
+        elif kind in ("curve-off", "curve-far-off"):
             nodes = kw["nodes"]
             s = kw["s"]
             base = X.eval_curve(nodes, s)
@@ -140,20 +269,44 @@ def main():
         else:
             prepared.append(None)
             midx.append(None)
-    replies = drv.run()
+    import time
+    t_drv = time.time()
+    replies = drv.run() if drv.lines else []       # (a replay of a triangle case asks nothing)
+    res.notes.append("config %s: %d model queries answered in %.1f s" % (cfg, sum(1 for i in midx if i is not None), time.time() - t_drv))
 
+    n_api = [0]
+    arr_cache = {}
     for (kind, kw), mi, point in zip(cases, midx, prepared):
         nodes = kw["nodes"]
-        arr = C.farr(nodes)
-        jkw = {k: (C.jfr(v) if k in ("nodes", "point") else (str(v) if isinstance(v, Fr) else v)) for k, v in kw.items()}
+        if id(nodes) not in arr_cache:
+            arr_cache[id(nodes)] = (nodes, C.farr(nodes), C.jfr(nodes))
+        arr = arr_cache[id(nodes)][1]
+        jkw = {k: (arr_cache[id(nodes)][2] if k == "nodes" else C.jfr(v) if k == "point" else (str(v) if isinstance(v, Fr) else v)) for k, v in kw.items()}
         rc = {"kind": kind, "kw": jkw}
         res.count((kind, str(jkw)), kind=kind, family=kw.get("family", "-"), size=len(nodes[0]))
         res.sample({"kind": kind, "num_nodes": len(nodes[0]), "s": str(kw.get("s")), "t": str(kw.get("t"))})
         try:
-            if kind == "curve-roundtrip":
+            if kind in ("curve-roundtrip", "curve-far"):
                 s = kw["s"]
                 n = len(nodes[0]) - 1
                 pt = np.asfortranarray([[float(v)] for v in point])
+                if kind == "curve-far":
+                    # regime E of the FAR family: the certificate holds on the binary64 net and the point is exactly B(s)
+                    if not FAR.x_monotone(nodes) or FAR.curve_ratio_bits(nodes) > FAR.RATIO_CAP_BITS + 0.01:
+                        res.skip("far: net outside the family")
+                        continue
+                    if not all(point[r] == X.bern(nodes[r], s) for r in range(len(nodes))):
+                        res.skip("far: evaluated point not exact")
+                        continue
+                    try:
+                        CH.locate_point(arr, pt)
+                        bezier.Curve(arr, n).locate(pt)
+                    except Exception as exc:  # noqa
+                        fail_capped("locate:raised-on-curve-point", "locate raised %r for the exactly representable point B(s=%s) of a regular injective degree-%d "
+                                    "curve in %d-D (coordinates up to %.4g, extent %.3g); the statement demands s" %
+                                    (exc if len(repr(exc)) < 160 else repr(exc)[:160], s, n, len(nodes), float(FAR.scale_of(nodes)),
+                                     float(max(max(r) - min(r) for r in nodes))), rc)
+                        continue
                 got = CH.locate_point(arr, pt)
                 crv = bezier.Curve(arr, n)
                 got_api = crv.locate(pt)
@@ -198,7 +351,30 @@ def main():
                         res.mismatch("locate_point(curve)", rc, str(g), str(model_s), "impl vs exact model beyond tolerance")
                 elif st == "ok" and model_s is None and exact_on_curve:
                     res.mismatch("model:locate", rc, str(g), "None", "model misses an exact on-curve point")
-            elif kind == "curve-off":
+            elif kind == "curve-boxoff":
+                n = len(nodes[0]) - 1
+                out_by = out_by_of(nodes, point)
+                if not out_by > 0:
+                    res.skip("boxoff: point not outside the box")
+                    continue
+                lo, hi = box_of(nodes)
+                pt = np.asfortranarray([[float(v)] for v in point])
+                got = CH.locate_point(arr, pt)
+                # the public entry point delegates to locate_point: observed on every fourth case (and on every replay)
+                n_api[0] += 1
+                got_api = bezier.Curve(arr, n).locate(pt) if (n_api[0] % 4 == 0 or rep) else None
+                for name, g in (("locate_point", got), ("Curve.locate", got_api)):
+                    if g is not None:
+                        fail_capped("locate:outside-box-not-none", "%s returned %r for the point %s, which is outside the box of the control points of the degree-%d "
+                                    "curve by %.3e (coordinates up to %.4g, extent %.3g; grade %s): outside the convex hull, hence not on the curve - the "
+                                    "statement demands None" % (name, g, [float(v) for v in point], n, float(out_by), float(FAR.scale_of(nodes)),
+                                                                float(max(hi[r] - lo[r] for r in range(len(nodes)))), kw.get("grade")), rc)
+                        break
+                if mi is not None:
+                    st, model = replies[mi]
+                    if st == "ok" and model != []:
+                        res.mismatch("model:locate", rc, str(got), str(model), "model locates a point outside the box (contradicts off-box => None)")
+            elif kind in ("curve-off", "curve-far-off"):
                 pt = np.asfortranarray([[float(v)] for v in point])
                 got = CH.locate_point(arr, pt)
                 st, model = replies[mi]
@@ -207,7 +383,9 @@ def main():
                 outside_box = any(point[r] < min(nodes[r]) or point[r] > max(nodes[r]) for r in range(len(nodes)))
                 lip = n * max(abs(nodes[r][j + 1] - nodes[r][j]) for r in range(len(nodes)) for j in range(n))
                 resolution = float(lip) * 2.0 ** -(rounds - 1)
-                far = kw["dist"] > 4 * resolution * math.sqrt(len(nodes)) + 1e-12
+                # rounding of the constructed point: absolute at ordinary scale, relative to the coordinates in the FAR family
+                slop = 1e-12 if kind == "curve-off" else 2.0 ** -44 * float(FAR.scale_of(nodes))
+                far = kw["dist"] > 4 * resolution * math.sqrt(len(nodes)) + slop
                 if (outside_box or far) and got is not None:
                     res.failure("locate:off-shape-not-none", "point at distance %.3g from the curve (resolution %.3g, outside box: %s) located at %r" %
                                 (kw["dist"], resolution, outside_box, got), rc)
@@ -222,28 +400,59 @@ def main():
                     res.failure("locate:wrong-shape-not-raised", "Curve.locate accepted a point of shape %r (returned %r) instead of raising ValueError" % (bad.shape, out), rc)
                 except ValueError:
                     pass
-            elif kind == "tri-roundtrip":
+            elif kind == "tri-boxoff":
+                d = kw["d"]
+                point = point_of(kw)
+                out_by = out_by_of(nodes, point)
+                if not out_by > 0:
+                    res.skip("boxoff: point not outside the box")
+                    continue
+                lo, hi = box_of(nodes)
+                px, py = float(point[0]), float(point[1])
+                got = TI.locate_point(arr, d, px, py)
+                n_api[0] += 1
+                got_api = bezier.Triangle(arr, d).locate(np.asfortranarray([[px], [py]])) if (n_api[0] % 4 == 0 or rep) else None
+                for name, g in (("locate_point", got), ("Triangle.locate", got_api)):
+                    if g is not None:
+                        fail_capped("locate-triangle:outside-box-not-none", "%s returned %r for the point %s, which is outside the box of the control points of the "
+                                    "degree-%d triangle by %.3e (coordinates up to %.4g, extent %.3g; grade %s): outside the convex hull, hence not on the "
+                                    "triangle - the statement demands None" % (name, tuple(map(float, g)), [px, py], d, float(out_by), float(FAR.scale_of(nodes)),
+                                                                                float(max(hi[r] - lo[r] for r in range(2))), kw.get("grade")), rc)
+                        break
+            elif kind in ("tri-roundtrip", "tri-far"):
                 d, s, t = kw["d"], kw["s"], kw["t"]
                 l1 = 1 - s - t
                 p = TH.evaluate_barycentric(arr, d, float(l1), float(s), float(t))
                 px, py = float(p[0, 0]), float(p[1, 0])
+                ex = [X.tri_eval(nodes[r], d, l1, s, t) for r in range(2)]
+                exact_on = Fr(px) == ex[0] and Fr(py) == ex[1]
+                noise = 0.0
+                if kind == "tri-far":
+                    # regime E of the FAR family: the point is exactly B(s, t); the pre-image of one rounding cell of the coordinates
+                    # (u |J^-1| max|coordinate|) is at most 2^-5 of the final search resolution
+                    noise = FAR.tri_noise(nodes, d, s, t, X)
+                    if noise is None or noise > 2.0 ** FAR.RATIO_CAP_BITS:
+                        res.skip("far: triangle point outside the family")
+                        continue
+                    if not exact_on:
+                        res.skip("far: evaluated point not exact")
+                        continue
                 got = TI.locate_point(arr, d, px, py)
                 tri = bezier.Triangle(arr, d)
                 got_api = tri.locate(np.asfortranarray([[px], [py]]))
                 if (got is None) != (got_api is None):
                     res.failure("locate-api-differs", "Triangle.locate %r vs locate_point %r" % (got_api, got), rc)
-                ex = [X.tri_eval(nodes[r], d, l1, s, t) for r in range(2)]
-                exact_on = Fr(px) == ex[0] and Fr(py) == ex[1]
                 if got is None:
                     dyadic_break = all(v.denominator <= 2 ** 20 and (v.denominator & (v.denominator - 1)) == 0 for v in (s, t))
                     key = "locate-triangle:closed-box-miss@dyadic-breakpoint" if (dyadic_break and not exact_on) else "locate-triangle:miss-on-surface"
                     res.failure(key, "triangle locate_point returned None for evaluate(s=%s,t=%s), degree %d" % (s, t, d), rc)
                     continue
                 gs, gt = Fr(float(got[0])), Fr(float(got[1]))
-                tol = Fr(1, 2 ** 36)
+                # FAR family: in addition 2^9 rounding cells of the coordinates (the same allowance 2^-44 / regularity as for curves)
+                tol = max(Fr(1, 2 ** 36), Fr(2.0 ** -44 * noise))
                 if abs(gs - s) > tol or abs(gt - t) > tol:
                     res.failure("locate-triangle:roundtrip-inaccurate", "triangle locate(evaluate(%s,%s)) = (%r,%r)" % (s, t, got[0], got[1]), rc)
-                eps = Fr(1, 2 ** 40)
+                eps = max(Fr(1, 2 ** 40), Fr(2.0 ** -44 * noise))
                 if gs < -eps or gt < -eps or gs + gt > 1 + eps:
                     res.failure("locate-triangle:outside-domain", "located (%r,%r) outside the reference triangle" % (got[0], got[1]), rc)
             elif kind == "tri-off":
@@ -259,7 +468,7 @@ def main():
                 except ValueError:
                     pass
         except Exception as exc:  # noqa
-            res.failure("raised:%s:%s" % (kind, type(exc).__name__), "%s raised %r" % (kind, exc), rc)
+            (fail_capped if kind in ("curve-boxoff", "tri-boxoff") else res.failure)("raised:%s:%s" % (kind, type(exc).__name__), "%s raised %r" % (kind, exc), rc)
     res.emit()
     if rep:
         bad = bool(res.failures)
